@@ -62,6 +62,12 @@ def ident(obj):
     """burst id carried by a PDU object (header / CSBK / rate block)"""
     n = type(obj).__name__
     if n == "FullLinkControl":
+        op = obj.full_link_control_opcode.name
+        if op == "GPSInfo":
+            return int(round(obj.longitude / (360 / 2 ** 25)))
+        if op.startswith("TalkerAlias"):
+            d = bytes(obj.talker_alias_data)
+            return int.from_bytes(d[1:3], "big") if len(d) >= 3 and d[0] == 0xA5 else -1
         return obj.source_address
     if n == "DataHeader":
         return obj.llid_source
@@ -116,10 +122,12 @@ class Sut:
         rng, cls, i, cc = self.rng, b["cls"], b["id"], b["cc"]
         sync = rng.choice(gen.DATA_SYNCS)
         D = BurstTypes.DataAndControl
-        if cls == "VH":
-            return gen.assemble_data_burst(gen.full_lc_voice(rng, i, group=rng.random() < 0.5), DataTypes.VoiceLCHeader, cc, sync), D
-        if cls == "TERM":
-            return gen.assemble_data_burst(gen.full_lc_voice(rng, i, group=rng.random() < 0.5), DataTypes.TerminatorWithLC, cc, sync), D
+        if cls in ("VH", "TERM"):
+            # a voice LC header / terminator carries any full link control: voice channel users mostly, but also talker alias
+            # (arbitrary octets, not only ASCII) and GPS info
+            k = rng.random()
+            lc = gen.full_lc_voice(rng, i, group=rng.random() < 0.5) if k < 0.75 else gen.full_lc_other(rng, "ta" if k < 0.9 else "gps", ident=i)
+            return gen.assemble_data_burst(lc, DataTypes.VoiceLCHeader if cls == "VH" else DataTypes.TerminatorWithLC, cc, sync), D
         if cls == "VS":
             return gen.voice_sync_burst(rng), BurstTypes.Vocoder
         if cls == "VE":
